@@ -63,8 +63,10 @@ impl AsyncRichIndexerHandle {
                 )
                 .await?;
 
-                let mut last_id = 0;
-                let mut count = 0i32;
+                // the offset inside the transaction the previous page ended in carries over: a
+                // transaction whose matching cells span more than two pages would otherwise be
+                // continued from the same offset again and again
+                let (mut last_id, mut count) = last_cursor.unwrap_or((0, 0i32));
                 let txs = txs
                     .into_iter()
                     .map(|(id, block_number, tx_index, tx_hash, io_type, io_index)| {
